@@ -80,6 +80,24 @@ func cases(run *vf.Run) ([]json.RawMessage, error) {
 		cfg.MaxSyncLTXFiles = 0
 		out = append(out, vf.Spec(spec{Kind: "S", Seed: vf.SubSeed(run.Seed, "C02S-case", i), Cfg: cfg, RunMs: ms}))
 	}
+	// F: like A, plus "disk full" episodes on the litestream meta directory (local
+	// LTX staging area) around litestream operations
+	nF := 24
+	if run.Tier == "thorough" {
+		nF = 400
+	}
+	for i := 0; i < nF; i++ {
+		rng := rand.New(rand.NewSource(vf.SubSeed(run.Seed, "C02F", i)))
+		cfg := hist.RandomConfig(rng)
+		cfg.PageSize = hist.PageSizes[(i+3)%len(hist.PageSizes)]
+		if i%3 == 0 {
+			cfg.MaxSyncWALFrames = 1 + rng.Intn(3)
+		}
+		if i%2 == 0 {
+			cfg.MinCheckpointPageN = []int{2, 5}[rng.Intn(2)] // litestream's own checkpoints fire often
+		}
+		out = append(out, vf.Spec(spec{Kind: "F", Seed: vf.SubSeed(run.Seed, "C02F-case", i), Ops: 40 + rng.Intn(40), Cfg: cfg}))
+	}
 	for i := 0; i < nA; i++ {
 		rng := rand.New(rand.NewSource(vf.SubSeed(run.Seed, "C02A", i)))
 		cfg := hist.RandomConfig(rng)
@@ -102,6 +120,7 @@ func runCase(run *vf.Run, raw json.RawMessage, dir string) *vf.Result {
 	if s.Kind == "B" || s.Kind == "S" {
 		return runB(s, dir, res)
 	}
+	// "A" and "F" share the sequential runner
 	return runA(s, dir, res)
 }
 
@@ -113,6 +132,14 @@ func runA(s spec, dir string, res *vf.Result) *vf.Result {
 		return res
 	}
 	defer e.Close()
+	faults := s.Kind == "F"
+	if faults {
+		if err := e.MountMeta(64); err != nil {
+			res.Count("local_fault_unavailable(mount failed)", 1)
+			res.Logf("no local faults in this history: %v", err)
+			faults = false
+		}
+	}
 	if err := e.StartLS(); err != nil {
 		res.HarnessErr = "open litestream: " + err.Error()
 		return res
@@ -124,10 +151,43 @@ func runA(s spec, dir string, res *vf.Result) *vf.Result {
 		res.HarnessErr = err.Error()
 		return res
 	}
+	// a fault episode is a short forced sequence: [disk full] litestream op(s)
+	// [space again] application writes, then a snapshot / sync / checkpoint
+	var forced []int
+	failedUnderFault := 0
 	for i := 0; i < s.Ops; i++ {
 		r := rng.Intn(32)
+		if faults && len(forced) == 0 && rng.Intn(9) == 0 {
+			lsop := func() int { return []int{16, 16, 21, 23, 23, 23, 25, 27}[rng.Intn(8)] } // sync, syncwait, ckpt, snapshot, compact
+			forced = append(forced, 100, lsop())
+			if rng.Intn(3) == 0 {
+				forced = append(forced, lsop())
+			}
+			forced = append(forced, 101)
+			for n := rng.Intn(3); n > 0; n-- {
+				forced = append(forced, 0)
+			}
+			forced = append(forced, []int{25, 25, 16, 23}[rng.Intn(4)])
+		}
+		if len(forced) > 0 {
+			r = forced[0]
+			forced = forced[1:]
+		}
 		var op string
 		switch {
+		case r == 100:
+			op = "diskfull-on"
+			if err := e.MetaFull(true); err != nil {
+				return herr(fmt.Errorf("harness: fill meta fs: %w", err))
+			}
+			res.Count("diskfull_episodes", 1)
+			e.Logf("meta directory file system is now full")
+		case r == 101:
+			op = "diskfull-off"
+			if err := e.MetaFull(false); err != nil {
+				return herr(fmt.Errorf("harness: free meta fs: %w", err))
+			}
+			e.Logf("meta directory file system has space again")
 		case r < 8:
 			op = "write"
 			if _, err := e.AppWrite(); err != nil {
@@ -151,6 +211,9 @@ func runA(s spec, dir string, res *vf.Result) *vf.Result {
 			op = "sync"
 			err := e.LS.Sync(ctx)
 			e.Logf("DB.Sync err=%v (open txn=%v)", err, e.OTx != nil)
+			if err != nil && e.MetaIsFull() {
+				failedUnderFault++
+			}
 			if err == nil && e.OTx != nil {
 				syncsWithUncommitted++
 			}
@@ -166,6 +229,9 @@ func runA(s spec, dir string, res *vf.Result) *vf.Result {
 			op = "ckpt-" + mode
 			err := e.LS.Checkpoint(ctx, mode)
 			e.Logf("DB.Checkpoint(%s) err=%v (open txn=%v)", mode, err, e.OTx != nil)
+			if err != nil && e.MetaIsFull() {
+				failedUnderFault++
+			}
 		case r < 27:
 			op = "snapshot"
 			if err := e.LS.Replica.Sync(ctx); err == nil {
@@ -188,6 +254,9 @@ func runA(s spec, dir string, res *vf.Result) *vf.Result {
 		}
 		ops = append(ops, op)
 	}
+	if err := e.MetaFull(false); err != nil {
+		return herr(err)
+	}
 	if err := e.EndOpenTx(rng.Intn(2) == 0); err != nil {
 		return herr(err)
 	}
@@ -196,10 +265,16 @@ func runA(s spec, dir string, res *vf.Result) *vf.Result {
 		e.Logf("final SyncAndWait err=%v", err)
 	}
 	res.Count("syncs_with_uncommitted_frames", syncsWithUncommitted)
+	if faults {
+		res.Count("litestream_calls_failed_while_disk_full", failedUnderFault)
+	}
 	distinctK := checkAllTXIDs(e, res)
-	res.Sig = fmt.Sprintf("A-%x", sha256.Sum256([]byte(s.Cfg.String()+strings.Join(ops, ","))))[:18]
+	res.Sig = fmt.Sprintf("%s-%x", s.Kind, sha256.Sum256([]byte(s.Cfg.String()+strings.Join(ops, ","))))[:18]
 	res.Nontrivial = syncsWithUncommitted >= 1 && distinctK >= 3
-	res.Sample = map[string]any{"kind": "A", "cfg": s.Cfg.String(), "ops": strings.Join(ops, " "), "syncs_with_uncommitted": syncsWithUncommitted, "distinct_k": distinctK}
+	if s.Kind == "F" {
+		res.Nontrivial = failedUnderFault >= 1 && distinctK >= 3
+	}
+	res.Sample = map[string]any{"kind": s.Kind, "cfg": s.Cfg.String(), "ops": strings.Join(ops, " "), "syncs_with_uncommitted": syncsWithUncommitted, "distinct_k": distinctK}
 	return res
 }
 
